@@ -208,14 +208,31 @@ func main() {
 	// one-shot function on every text and prefix (incl. the empty prefix)
 	var oneReq []string
 	var oneGo []string
-	for _, pre := range append([]string{""}, prefixes...) {
-		for _, t := range texts {
+	// byte-level texts for the one-shot functions: bytes that are not valid UTF-8 (a lone 0xff, a
+	// truncated lead byte, a lone continuation byte) must come out as they went in
+	oneTexts := append([][]byte{}, texts...)
+	{
+		balpha := []byte{'a', '\n', 0xff, 0xc3, 0xa9}
+		fr := [][]byte{{}}
+		for l := 1; l <= 4; l++ {
+			var next [][]byte
+			for _, t := range fr {
+				for _, b := range balpha {
+					next = append(next, append(append([]byte{}, t...), b))
+				}
+			}
+			oneTexts = append(oneTexts, next...)
+			fr = next
+		}
+	}
+	for _, pre := range append([]string{"", "\xff", "\xc3"}, prefixes...) {
+		for _, t := range oneTexts {
 			oneReq = append(oneReq, "indent "+lib.HexS(pre)+" "+lib.Hex(t))
 			gs := indent.String(pre, string(t))
 			gb := indent.Bytes([]byte(pre), t)
 			if gs != string(gb) {
 				res.AddDisagreement(lib.Disagreement{Kind: "spec", Input: oneReq[len(oneReq)-1], Go: gs, Model: string(gb),
-					SpecVerdict: "holds", What: "indent.String and indent.Bytes differ"})
+					SpecVerdict: "violates", What: "indent.String and indent.Bytes differ on the same text and prefix"})
 			}
 			oneGo = append(oneGo, lib.HexS(gs))
 		}
